@@ -474,9 +474,9 @@ def run(ctx):
     NAMES.clear()
     NAMES.update({k: am.actual(k) or k for k in ("nv", "pv", "ov", "indexing", "pdm")})
     tabs = table_comps(init)
-    rule_a(ctx, init, tabs)
-    rule_b(ctx, init, tabs)
-    rule_c(ctx, init, tabs)
+    ctx.guard(rule_a, ctx, init, tabs)
+    ctx.guard(rule_b, ctx, init, tabs)
+    ctx.guard(rule_c, ctx, init, tabs)
     # semantic folds: always of the code as it is, never of the documented construction
-    rule_d(ctx, real_init)
-    rule_e(ctx, real_init)
+    ctx.guard(rule_d, ctx, real_init)
+    ctx.guard(rule_e, ctx, real_init)
